@@ -1,59 +1,315 @@
-// probe version
+// E-CONC harness for C10 (GarbageCollector) under VRT.
+// usage: c10 <mode> <seed0> <nruns>
+//   mode tl   : critical regions in thread-local style (Epoch::lock / unlock)
+//   mode acc  : critical regions through Epoch::Accessor, opened by one thread and closed by another
+//   mode big  : capacity 128 / 256 and hundreds of retirements (passes that reclaim >= 100 and >= batch)
+//   mode fix-open-stop : the fixed schedule "one region open, one retire, stop()" (DESIGN section 7 #2)
+// One case = one seeded program (queue capacity 1-8, 1-3 retiring threads using retire(r), retire(r, tick())
+// and batch retirement, 0-2 threads holding long regions, stop() after the retiring threads returned and a
+// PRNG-chosen delay, regions still open at stop() close later from their own / another thread) under one
+// seeded schedule.  Output per run:  RUN <seed> cap=<n> gc=<tid> ...\n <trace lines> END
+// The trace (harness events + atomic operations on the epoch version, epoch slots, queue indices and queue
+// slot versions + sleeps) is replayed by lean/Drivers/C10.lean against the event-level model.
+// ORACLE on the real code (events `ev ORACLE <kind> ...`):
+//   twice      a reclaimer was invoked a second time
+//   early      a reclaimer was invoked while a region that was open when it was retired is still open
+//   lost       stop() returned and a reclaimer retired before stop() was called has not been invoked
+//   foreign    a reclaimer was invoked by a thread other than the collector
+//   destroyed  a reclaimer object was destroyed without having been invoked
 #include "../vrt/vrt.h"
 
 #include <babylon/concurrent/garbage_collector.h>
 
+#include <atomic>
 #include <cstdio>
 #include <cstdlib>
 #include <cstring>
+#include <memory>
 #include <string>
 #include <thread>
 #include <vector>
 
 using namespace babylon;
 
+struct Rng {
+  uint64_t s;
+  explicit Rng(uint64_t x) : s(x * 0x9E3779B97F4A7C15ull + 1) {}
+  uint64_t next() {
+    s ^= s << 13;
+    s ^= s >> 7;
+    s ^= s << 17;
+    return s * 0x2545F4914F6CDD1Dull;
+  }
+  uint64_t below(uint64_t n) { return n ? (next() >> 11) % n : 0; }
+};
+
+// ---- oracle state (plain memory: exactly one thread runs at a time under VRT)
+struct Oracle {
+  std::vector<int> invoked;                  // per reclaimer id
+  std::vector<int> returned_before_stop;     // retire(id) returned before stop() was called
+  std::vector<std::vector<int>> blockers;    // region instances open when id was retired
+  std::vector<int> region_open;              // per region instance: 1 open, 0 not yet / closed
+  std::vector<int> retire_returned;
+  int stop_called = 0;
+  int gc_tid = 1;
+  void reset(int nids, int nregions) {
+    invoked.assign(nids, 0);
+    returned_before_stop.assign(nids, 0);
+    retire_returned.assign(nids, 0);
+    blockers.assign(nids, {});
+    region_open.assign(nregions, 0);
+    stop_called = 0;
+  }
+  std::vector<int> open_now() const {
+    std::vector<int> r;
+    for (size_t i = 0; i < region_open.size(); ++i)
+      if (region_open[i]) r.push_back((int)i);
+    return r;
+  }
+};
+static Oracle g_or;
+
 struct Rec {
   int id {-1};
   Rec() = default;
   explicit Rec(int i) : id(i) {}
   Rec(Rec&& o) noexcept : id(o.id) { o.id = -1; }
-  Rec& operator=(Rec&& o) noexcept { id = o.id; o.id = -1; return *this; }
-  void operator()() { vrt_event("reclaim %d", id); }
+  Rec& operator=(Rec&& o) noexcept {
+    drop();
+    id = o.id;
+    o.id = -1;
+    return *this;
+  }
+  ~Rec() { drop(); }
+  void drop() {
+    if (id >= 0 && !g_or.invoked[id]) vrt_event("ORACLE destroyed reclaimer %d destroyed without having been invoked", id);
+    id = -1;
+  }
+  void operator()() {
+    vrt_event("reclaim %d", id);
+    if (id < 0 || id >= (int)g_or.invoked.size()) {
+      vrt_event("ORACLE twice invalid reclaimer object invoked (id %d)", id);
+      return;
+    }
+    if (vrt_tid() != g_or.gc_tid) vrt_event("ORACLE foreign reclaimer %d invoked by thread %d", id, vrt_tid());
+    if (g_or.invoked[id]++) vrt_event("ORACLE twice reclaimer %d invoked %d times", id, g_or.invoked[id]);
+    for (int r : g_or.blockers[id])
+      if (g_or.region_open[r]) vrt_event("ORACLE early reclaimer %d invoked while region %d, open at its retirement, is still open", id, r);
+  }
 };
 
-int main(int argc, char** argv) {
-  uint64_t seed = argc > 1 ? strtoull(argv[1], 0, 10) : 1;
-  GarbageCollector<Rec> gc;
-  gc.set_queue_capacity(2);
+using GC = GarbageCollector<Rec>;
+
+static void name_all(GC& gc) {
   auto& ep = gc._epoch;
-  ep._slots.ensure(15);
+  ep._slots.ensure(63);
   vrt_unname_all();
   vrt_name(&ep._version, 8, "ep.ver");
-  for (int i = 0; i < 16; ++i) vrt_namef(&ep._slots[i].version, 8, "ep.s%d", i);
+  for (int i = 0; i < 64; ++i) vrt_namef(&ep._slots[i].version, 8, "ep.s%d", i);
   vrt_name(&ep._id_allocator._next_value, sizeof(ep._id_allocator._next_value), "ep.idend");
   vrt_name(&gc._queue._next_push_index, 8, "q.push");
   vrt_name(&gc._queue._next_pop_index, 8, "q.pop");
-  for (size_t i = 0; i < gc._queue.capacity(); ++i) vrt_namef(&gc._queue._slots.futex(i), 4, "q.f%zu", i);
-  vrt_begin(seed);
-  printf("RUN %lu cap=%zu\n", (unsigned long)seed, gc._queue.capacity());
-  gc.start();
-  std::thread t1([&] {
-    ep.lock();
-    vrt_event("region_open 0");
-    usleep(5000);
-    vrt_event("region_close 0");
-    ep.unlock();
-  });
-  for (int i = 0; i < 3; ++i) {
-    vrt_event("retire_begin %d", i);
-    gc.retire(Rec(i));
-    vrt_event("retire_end %d", i);
+  for (size_t i = 0; i < gc._queue.capacity(); ++i) {
+    vrt_namef(&gc._queue._slots.futex(i), 4, "q.f%zu", i);
+    vrt_payload(&gc._queue._slots.value(i), sizeof(gc._queue._slots.value(i)), "cell");
   }
+}
+
+// ---- client actions
+static void do_retire(GC& gc, int id) {
+  g_or.blockers[id] = g_or.open_now();
+  vrt_event("retire_begin %d", id);
+  gc.retire(Rec(id));
+  g_or.retire_returned[id] = 1;
+  vrt_event("retire_end %d", id);
+}
+static uint64_t do_tick(GC& gc, std::vector<int>& open_at_tick) {
+  open_at_tick = g_or.open_now();
+  vrt_event("tick");
+  return gc.epoch().tick();
+}
+static void do_retire_at(GC& gc, int id, uint64_t e, const std::vector<int>& open_at_tick) {
+  g_or.blockers[id] = open_at_tick;
+  vrt_event("retire_at_begin %d %lu", id, (unsigned long)e);
+  gc.retire(Rec(id), e);
+  g_or.retire_returned[id] = 1;
+  vrt_event("retire_end %d", id);
+}
+static void do_stop(GC& gc) {
+  for (size_t i = 0; i < g_or.invoked.size(); ++i) g_or.returned_before_stop[i] = g_or.retire_returned[i];
+  g_or.stop_called = 1;
   vrt_event("stop_begin");
   gc.stop();
   vrt_event("stop_end");
-  t1.join();
+  for (size_t i = 0; i < g_or.invoked.size(); ++i)
+    if (g_or.returned_before_stop[i] && g_or.invoked[i] != 1)
+      vrt_event("ORACLE lost stop() returned, reclaimer %zu retired before stop() was invoked %d times", i, g_or.invoked[i]);
+}
+
+struct RetirePlan {
+  // kind 0: retire(r)   1: tick + retire(r, e)   2: batch: one tick, then `n` retire(r, e)
+  struct Op { int kind; int n; unsigned pause_us; };
+  std::vector<Op> ops;
+  int first_id = 0;
+};
+struct RegionPlan {
+  unsigned start_us;     // delay before opening
+  unsigned hold_us;      // how long it stays open
+  bool nested;
+  int region;            // region instance id
+};
+
+static void run_retirer(GC& gc, const RetirePlan& p) {
+  int id = p.first_id;
+  for (auto& op : p.ops) {
+    if (op.pause_us) usleep(op.pause_us);
+    if (op.kind == 0) {
+      do_retire(gc, id++);
+    } else {
+      std::vector<int> open_at_tick;
+      uint64_t e = do_tick(gc, open_at_tick);
+      for (int i = 0; i < op.n; ++i) do_retire_at(gc, id++, e, open_at_tick);
+    }
+  }
+}
+
+static void final_checks() {
+  for (size_t i = 0; i < g_or.invoked.size(); ++i)
+    if (g_or.invoked[i] > 1) vrt_event("ORACLE twice reclaimer %zu invoked %d times in total", i, g_or.invoked[i]);
+}
+
+static void run_case(uint64_t seed, const std::string& mode) {
+  Rng rng(seed);
+  bool big = mode == "big";
+  bool acc_style = mode == "acc";
+  bool fix = mode == "fix-open-stop";
+  size_t want_cap = big ? (rng.below(2) ? 128 : 256) : 1 + rng.below(8);
+  int nret = big ? 1 + (int)rng.below(2) : 1 + (int)rng.below(3);
+  int nreg_threads = big ? (int)rng.below(2) : (int)rng.below(3);
+  if (fix) { want_cap = 1 + rng.below(4); nret = 1; nreg_threads = 1; acc_style = false; }
+
+  // plans
+  std::vector<RetirePlan> rplans(nret);
+  int nids = 0;
+  for (auto& p : rplans) {
+    p.first_id = nids;
+    int nops = big ? 60 + (int)rng.below(120) : 1 + (int)rng.below(6);
+    if (fix) nops = 1;
+    for (int i = 0; i < nops; ++i) {
+      RetirePlan::Op op;
+      unsigned k = (unsigned)rng.below(10);
+      op.kind = fix ? 0 : (k < 6 ? 0 : k < 8 ? 1 : 2);
+      op.n = op.kind == 2 ? 2 + (int)rng.below(3) : 1;
+      op.pause_us = (!big && rng.below(4) == 0) ? 200 + (unsigned)rng.below(4000) : 0;
+      if (fix) op.pause_us = 2000;   // let the region open first
+      p.ops.push_back(op);
+      nids += op.n;
+    }
+  }
+  std::vector<std::vector<RegionPlan>> gplans(nreg_threads);
+  int nregions = 0;
+  for (auto& g : gplans) {
+    int n = fix ? 1 : 1 + (int)rng.below(3);
+    for (int i = 0; i < n; ++i) {
+      RegionPlan r;
+      r.start_us = (unsigned)rng.below(3000);
+      r.hold_us = rng.below(3) == 0 ? (unsigned)rng.below(800) : 2000 + (unsigned)rng.below(40000);
+      r.nested = rng.below(5) == 0;
+      if (fix) { r.start_us = 0; r.hold_us = 30000; r.nested = false; }
+      r.region = nregions++;
+      g.push_back(r);
+    }
+  }
+  unsigned stop_delay_us = rng.below(3) == 0 ? 0 : (unsigned)rng.below(big ? 3000 : 25000);
+  if (fix) stop_delay_us = 0;
+
+  g_or.reset(nids, nregions);
+  auto gcp = std::make_unique<GC>();
+  GC& gc = *gcp;
+  gc.set_queue_capacity(want_cap);
+  name_all(gc);
+  auto& ep = gc.epoch();
+  // accessor style: accessors are created up front (before the controlled section the id allocator is
+  // not traced); region k of thread g uses accessor g, opened by thread g and closed by a helper thread
+  std::vector<Epoch::Accessor> accs;
+  if (acc_style)
+    for (int g = 0; g < nreg_threads; ++g) accs.push_back(ep.create_accessor());
+
+  vrt_trace_sleep(1);
+  vrt_begin(seed);
+  g_or.gc_tid = 1;
+  printf("RUN %lu cap=%zu gc=1 mode=%s retirers=%d regionthreads=%d ids=%d regions=%d\n", (unsigned long)seed, gc._queue.capacity(),
+         mode.c_str(), nret, nreg_threads, nids, nregions);
+  gc.start();   // first thread created in the section: tid 1
+  std::vector<std::thread> reg_threads, ret_threads, closers;
+  std::vector<std::unique_ptr<std::atomic<int>>> handoff;
+  for (int i = 0; i < nregions; ++i) handoff.emplace_back(new std::atomic<int>(0));
+  for (int g = 0; g < nreg_threads; ++g) {
+    if (!acc_style) {
+      reg_threads.emplace_back([&, g] {
+        for (auto& r : gplans[g]) {
+          if (r.start_us) usleep(r.start_us);
+          unsigned slot = ThreadId::current_thread_id<Epoch>().value;
+          vrt_event("region_enter %u", slot);
+          ep.lock();
+          g_or.region_open[r.region] = 1;
+          vrt_event("region_open %u", slot);
+          if (r.nested) { ep.lock(); }
+          if (r.hold_us) usleep(r.hold_us);
+          if (r.nested) { ep.unlock(); }
+          g_or.region_open[r.region] = 0;
+          vrt_event("region_close %u", slot);
+          ep.unlock();
+        }
+      });
+    } else {
+      // opener
+      reg_threads.emplace_back([&, g] {
+        for (auto& r : gplans[g]) {
+          if (r.start_us) usleep(r.start_us);
+          unsigned slot = (unsigned)accs[g]._index;
+          vrt_event("region_enter %u", slot);
+          accs[g].lock();
+          g_or.region_open[r.region] = 1;
+          vrt_event("region_open %u", slot);
+          handoff[r.region]->store(1, std::memory_order_release);
+          // wait until the closer thread has closed it before reusing the accessor
+          while (handoff[r.region]->load(std::memory_order_acquire) != 2) usleep(300);
+        }
+      });
+      // closer: another thread ends the region
+      closers.emplace_back([&, g] {
+        for (auto& r : gplans[g]) {
+          while (handoff[r.region]->load(std::memory_order_acquire) != 1) usleep(300);
+          if (r.hold_us) usleep(r.hold_us);
+          unsigned slot = (unsigned)accs[g]._index;
+          g_or.region_open[r.region] = 0;
+          vrt_event("region_close %u", slot);
+          accs[g].unlock();
+          handoff[r.region]->store(2, std::memory_order_release);
+        }
+      });
+    }
+  }
+  for (int t = 0; t < nret; ++t) ret_threads.emplace_back([&, t] { run_retirer(gc, rplans[t]); });
+  for (auto& t : ret_threads) t.join();
+  if (stop_delay_us) usleep(stop_delay_us);
+  do_stop(gc);
+  for (auto& t : reg_threads) t.join();
+  for (auto& t : closers) t.join();
+  final_checks();
+  vrt_event("stats steps %lu switches %lu races %lu", vrt_steps(), vrt_switches(), vrt_races());
   vrt_end();
   vrt_dump(stdout);
+  accs.clear();
+  gcp.reset();   // destructor: stop() again (no-op)
+}
+
+int main(int argc, char** argv) {
+  std::string mode = argc > 1 ? argv[1] : "tl";
+  uint64_t seed0 = argc > 2 ? strtoull(argv[2], 0, 10) : 1;
+  int nruns = argc > 3 ? atoi(argv[3]) : 1;
+  if (mode != "tl" && mode != "acc" && mode != "big" && mode != "fix-open-stop") return 2;
+  for (int i = 0; i < nruns; ++i) run_case(seed0 + i, mode);
   return 0;
 }
